@@ -429,7 +429,14 @@ func (vc *FuncVC) run() {
 			continue
 		}
 		vc.assume(True, t)
+		if gi.Ctx != nil && gi.Ctx.Pkg != nil {
+			if vc.usedInvPkgs == nil {
+				vc.usedInvPkgs = map[string]bool{}
+			}
+			vc.usedInvPkgs[gi.Ctx.Pkg.Path()] = true
+		}
 	}
+	vc.assumeAxioms(entryEnv)
 	if vc.con != nil {
 		for _, r := range vc.con.Requires {
 			e := *entryEnv
@@ -1515,6 +1522,11 @@ func (vc *FuncVC) sliceOp(b *ssa.BasicBlock, x *ssa.Slice, st *State) {
 		}
 		// the array object is the backing array; interior pointers keep root
 		vc.vals[x] = vc.define(x.Name(), App(SSlice, "mk_slice", v, lo, App(SInt, "-", hi, lo), App(SInt, "-", n, lo)))
+		if bt, ok := under(at.Elem()).(*types.Basic); ok && bt.Kind() == types.Uint8 && x.Low == nil && x.High == nil {
+			// the bytes of the full slice are the bytes of the array it was cut from
+			key := vc.heapComp(SInt)
+			vc.assume(reach, Eq(App(SString, "bytes_str", vc.vals[x]), App(SString, "arr_str", App(ArraySort(SInt, SInt), vc.arrloadFn(SInt), vc.cur(st, key), v))))
+		}
 		vc.note("slice of array pointer: backing array is the pointer itself (rkind may be interior)")
 	default:
 		vc.unsupportedInstr(x)
@@ -1685,4 +1697,33 @@ func (vc *FuncVC) mentionsDryGlobal(gi *Clause) bool {
 		return true
 	})
 	return found
+}
+
+// assumeAxioms adds the assumed axioms that speak about ghost functions this VC has declared.
+func (vc *FuncVC) assumeAxioms(entryEnv *Env) {
+	if vc.dry {
+		return
+	}
+	for _, ax := range vc.S.Axioms {
+		relevant := vc.fn == nil
+		ast.Inspect(ax.Expr, func(n ast.Node) bool {
+			if id, ok := n.(*ast.Ident); ok && vc.tc.extra["gh_"+id.Name] {
+				relevant = true
+			}
+			return true
+		})
+		if !relevant {
+			continue
+		}
+		e := *entryEnv
+		e.ctx = ax.Ctx
+		e.lookup = nil
+		t, err := e.Bool(ax.Expr)
+		if err != nil {
+			vc.errorf("%s: axiom: %v", ax.Where, err)
+			continue
+		}
+		vc.assume(True, t)
+		vc.assumed["axiom "+ax.Label+": "+ax.Raw] = true
+	}
 }
